@@ -354,6 +354,9 @@ func c16Run(c *Ctx, n int) {
 			var doc *etree.Document
 			doc, docClass = c16Doc(r, sp, kind)
 			docBytes, _ = doc.WriteToBytes()
+			// the ...FromDocument builders post the document GIVEN, whatever SignAuthnRequests says (signing is the business of
+			// whoever built the document; keys are configured)
+			sp.SignAuthnRequests = r.Intn(2) == 0
 			render := func() ([]byte, error) {
 				switch kind {
 				case "authn":
